@@ -341,6 +341,16 @@ theorem fixed8_print_parse_fixedpoints (s : Bytes) (v : Int) (hr : -(2:Int)^63 ‚
 -- "+1.50" and "1.5" both parse to 150 at precision 2, so at most one of them is printed
 example : decFromString [43, 49, 46, 53, 48] 2 = some 150 ‚àß decFromString [49, 46, 53] 2 = some 150 := by decide
 
+/-- C18 (decimals, grammar of the printed form ‚Äî one direction): every string `ToString` prints, hence
+every accepted string on which print‚àòparse is the identity, has the form
+`[-] digits-without-leading-zeros [ . 1..precision digits not ending in 0 ]` with "-0" only before a
+fraction. The converse (every string of this form is printed) is NOT proved. -/
+theorem decimal_printed_is_canonical (s : Bytes) (p : Nat) (v : Int)
+    (hs : decToString v p = s) : canonDec s p := by
+  rw [‚Üê hs]; exact decToString_canon v p
+
+example : canonDec (decToString (-5) 1) 1 := decToString_canon _ _
+
 /-- C18 (Fixed8, out-of-range text): `Fixed8FromString` never fails on range; it returns the parsed
 decimal wrapped to int64 (the int64 congruent to it modulo 2^64). -/
 theorem fixed8_parse_wraps (s : Bytes) (w : Int) :
